@@ -60,8 +60,11 @@ Arguments fsum {Ops}. Arguments fqsum {Ops}. Arguments fmm {Ops}. Arguments fher
    Fixed-point instance: value = z * 2^-P with P = 160; sqrt by Z.sqrt.  Not a field (rounding to
    2^-160), used only to EXECUTE models next to the implementation. *)
 Definition FXP : Z := 160.
-Definition fx_mul (a b : Z) : Z := Z.shiftr (a * b) FXP.
-Definition fx_div (a b : Z) : Z := if Z.eqb b 0 then 0 else Z.div (Z.shiftl a FXP) b.
+(* rounding is towards zero, hence odd-symmetric like IEEE arithmetic: (-a) b = -(a b) exactly, so structural
+   cancellations that are exact in binary64 are exact here too *)
+Definition tshiftr (x : Z) : Z := if Z.ltb x 0 then Z.opp (Z.shiftr (Z.opp x) FXP) else Z.shiftr x FXP.
+Definition fx_mul (a b : Z) : Z := tshiftr (a * b).
+Definition fx_div (a b : Z) : Z := if Z.eqb b 0 then 0 else Z.quot (Z.shiftl a FXP) b.
 Definition fx_sqrt (a : Z) : Z := if Z.leb a 0 then 0 else Z.sqrt (Z.shiftl a FXP).
 Definition fx_dyad (m e : Z) : Z := Z.shiftl m (e + FXP).       (* shiftl with negative amount shifts right *)
 Definition FxOps : FOps := mkFOps Z 0%Z (Z.shiftl 1 FXP) Z.add Z.sub fx_mul fx_div Z.opp fx_sqrt Z.leb Z.ltb fx_dyad.
